@@ -151,6 +151,8 @@ impl NoCycleGuard<'_> {
 
 impl Serialize for SerializeSchema<'_, SchemaKey> {
 	fn serialize<S: Serializer>(&self, serializer: S) -> Result<S::Ok, S::Error> {
+		#[cfg(ten0_serde_avro_fast_verif)]
+		crate::schema::verif_hooks::tick();
 		let node = self
 			.schema_nodes
 			.get(self.key.idx)
